@@ -520,6 +520,12 @@ public:
       return theBaseId[i];
    }
 
+   /// are the ids and vectors of the basic variables set up? (if not, they are rebuilt from the descriptor before the next solve)
+   bool isMatrixSetup() const
+   {
+      return matrixIsSetup;
+   }
+
    /// returns the \p i'th basic vector.
    const SVectorBase<R>& baseVec(int i) const
    {
